@@ -261,3 +261,58 @@ func compatibleDefs(pb types.Base) []types.Base {
 }
 
 func fitNewFile(ft byte) (*fit.File, error) { return fit.NewFile(fit.FileType(ft), validHeader()) }
+
+// parseRecords parses the textual record list (specArgs format) back into a stream.
+func parseRecords(text string) *stream {
+	s := &stream{HdrSize: 14, Proto: 0x10, Profile: 2115, HdrCRC: "ok"}
+	unhex := func(h string) []byte {
+		if h == "-" {
+			return nil
+		}
+		b := make([]byte, len(h)/2)
+		for i := range b {
+			fmt.Sscanf(h[2*i:2*i+2], "%02x", &b[i])
+		}
+		return b
+	}
+	triples := func(t string) [][3]int {
+		var out [][3]int
+		if t == "-" {
+			return out
+		}
+		for _, e := range strings.Split(t, ",") {
+			var a, b, c int
+			fmt.Sscanf(e, "%d.%d.%d", &a, &b, &c)
+			out = append(out, [3]int{a, b, c})
+		}
+		return out
+	}
+	for _, w := range strings.Fields(text) {
+		p := strings.Split(w, ":")
+		var l, x int
+		switch p[0] {
+		case "D":
+			var arch, gmn int
+			fmt.Sscanf(p[1], "%d", &l)
+			fmt.Sscanf(p[2], "%d", &arch)
+			fmt.Sscanf(p[3], "%d", &gmn)
+			r := record{Kind: "D", Local: byte(l), Arch: byte(arch), Gmn: uint16(gmn), DevFlg: p[5] == "1"}
+			for _, t := range triples(p[4]) {
+				r.Fields = append(r.Fields, fieldDefS{byte(t[0]), byte(t[1]), byte(t[2])})
+			}
+			for _, t := range triples(p[6]) {
+				r.Devs = append(r.Devs, devDefS{byte(t[0]), byte(t[1]), byte(t[2])})
+			}
+			s.Records = append(s.Records, r)
+		case "M":
+			fmt.Sscanf(p[1], "%d", &l)
+			s.Records = append(s.Records, record{Kind: "M", Local: byte(l), Pay: unhex(p[2]), DevPay: unhex(p[3])})
+		case "Z":
+			fmt.Sscanf(p[1], "%d", &l)
+			fmt.Sscanf(p[2], "%d", &x)
+			s.Records = append(s.Records, record{Kind: "Z", Local: byte(l), Offset: byte(x), Pay: unhex(p[3]), DevPay: unhex(p[4])})
+		}
+	}
+	s.fillHex()
+	return s
+}
